@@ -4,8 +4,42 @@ import ast
 from rules import coupling, observers, stream
 from sa.deps import Facts, base_name, names_in, pseudo
 from sa.loader import AnalysisError, FuncInfo, own_nodes
-from sa.model import row_loops, rowloop_signature, u, where
+from sa.model import norm_compare, norm_guard, row_loops, rowloop_signature, u, where
+from sa.normalize import resolve_here
+from sa.pathvals import PathValues
+from sa.pattern import match_expr, match_stmt
 from sa.paths import CONTINUE, FALL, RAISE, Enumerator, path_nodes
+
+
+def returned_closure(ctx, fi):
+    """The nested function (FuncInfo) or lambda a factory returns."""
+    rets = [n for n in own_nodes(fi.node) if isinstance(n, ast.Return) and n.value is not None]
+    if len(rets) != 1:
+        return None
+    v = rets[0].value
+    if isinstance(v, ast.Lambda):
+        return ctx.repo.func_of_node.get(id(v))
+    if isinstance(v, ast.Name):
+        for n in own_nodes(fi.node):
+            if isinstance(n, ast.FunctionDef) and n.name == v.id:
+                return ctx.repo.func_of_node.get(id(n))
+    return None
+
+
+def bind_args(call, fi):
+    """parameter name -> argument expression, for positional / keyword arguments of a plain call"""
+    out = {}
+    for p_, a_ in zip(fi.params, call.args):
+        out[p_] = a_
+    for k in call.keywords:
+        if k.arg:
+            out[k.arg] = k.value
+    return out
+
+
+def callee(ctx, call, fi):
+    tg = [t for t in ctx.res._resolve_callee(call.func, fi.module, fi) if isinstance(t, FuncInfo)]
+    return tg[0] if len(tg) == 1 else None
 
 
 def filter_clauses(ctx):
@@ -13,63 +47,111 @@ def filter_clauses(ctx):
     run.rule('FLT', 'FILTER: the row wrapper yields the incoming row object iff condition(row) holds, never stores into it and has no '
                     'other exit; the old-style condition is any(==) over `equals` or any(!=) over `not_equals`; the user condition '
                     'takes precedence')
-    pr = repo.func('dataflows.processors.filter_rows:process_resource')
+    fr = repo.func('dataflows.processors.filter_rows:filter_rows')
+    func0 = returned_closure(ctx, fr)
+    if func0 is None:
+        raise AnalysisError('filter_rows: package step not found')
+    func = ctx.N(func0)
+    # the row wrapper: the generator function the selected resource is handed to
+    wcalls = []
+    for c in own_nodes(func0.node):
+        if isinstance(c, ast.Call):
+            h = callee(ctx, c, func0)
+            if h is not None and h.is_generator:
+                wcalls.append((c, h))
+    if len(wcalls) != 1:
+        raise AnalysisError('filter_rows.func: expected one row-wrapper call, found %d' % len(wcalls))
+    wcall, pr0 = wcalls[0]
+    pr = ctx.N(pr0)
     loop, var, src = observers.single_row_loop(ctx, pr)
     cond = [p for p in pr.params if p != src][0]
     sigs = rowloop_signature(pr, loop, var)
     seen = set()
     for s in sigs:
-        calls = [(t, pol) for t, pol in s.guards if isinstance(t, ast.Call) and pseudo(t.func) == cond
-                 and [pseudo(a) for a in t.args] == [var]]
-        if len(calls) != 1 or len(s.guards) != 1:
+        gs = [norm_compare(resolve_here(t), pol) for t, pol in s.guards]
+        calls = [(t, pol) for t, pol in gs if isinstance(t, ast.Call) and pseudo(t.func) == cond
+                 and [pseudo(a) for a in t.args] == [var] and not t.keywords]
+        if len(calls) != 1 or len(gs) != 1:
             run.fail('FLT', where(repo, loop), pr.qualname, s.describe(), 'filter decision is not exactly condition(row)')
             continue
         pol = calls[0][1]
         seen.add(pol)
         kinds = [k for k, _ in s.yields]
-        run.check((kinds == ['identity']) == pol and (not kinds or pol) and not s.stores and s.term == FALL, 'FLT',
+        run.check((kinds == ['identity']) == pol and (not kinds or pol) and not s.stores and s.term in (FALL, CONTINUE), 'FLT',
                   where(repo, loop), pr.qualname, s.describe(),
                   'a row satisfying the condition must be yielded unchanged exactly once and a row failing it never')
     run.check(seen == {True, False}, 'FLT', where(repo, loop), pr.qualname, 'both outcomes of condition(row)', 'filter has no decision')
-    osc = repo.func('dataflows.processors.filter_rows:old_style_conditions.func')
-    ret = [n for n in own_nodes(osc.node) if isinstance(n, ast.Return)]
-    ok = False
-    if len(ret) == 1 and isinstance(ret[0].value, ast.BoolOp) and isinstance(ret[0].value.op, ast.Or) and len(ret[0].value.values) == 2:
-        a, b = ret[0].value.values
+    # the wrapper gets the (possibly defaulted) condition
+    b = bind_args(wcall, pr0)
+    cond_name = pseudo(b.get(cond)) if b.get(cond) is not None else None
+    run.check(cond_name == 'condition', 'FLT', func.where, func.qualname, 'row wrapper(<resource>, condition)',
+              'the row wrapper is not given the condition')
+    # precedence: on every path through filter_rows, `condition` keeps the caller's value when that is truthy / not None and
+    # is the old-style condition of (equals, not_equals) otherwise
+    frn = ctx.N(fr)
+    osc = None
+    ok, n = True, 0
 
-        def shape(c, op, over):
-            if not (isinstance(c, ast.Call) and u(c.func) == 'any' and isinstance(c.args[0], ast.GeneratorExp)):
-                return False
-            g = c.args[0]
-            cmp_ = g.elt
-            if not (isinstance(cmp_, ast.Compare) and isinstance(cmp_.ops[0], op) and len(g.generators) == 2):
-                return False
-            o, kv = g.generators
-            if pseudo(o.iter) != over or o.ifs or kv.ifs:
-                return False
-            if not (isinstance(kv.iter, ast.Call) and u(kv.iter.func) == '%s.items' % o.target.id):
-                return False
-            k, v = [t.id for t in kv.target.elts]
-            return u(cmp_.left) == '%s[%s]' % (osc.params[0], k) and u(cmp_.comparators[0]) == v
-        outer = osc.parent
-        ok = shape(a, ast.Eq, outer.params[0]) and shape(b, ast.NotEq, outer.params[1])
-    run.check(ok, 'FLT', osc.where, osc.qualname, 'any(row[k] == v ...equals) or any(row[k] != v ...not_equals)',
-              'the equals / not_equals condition is not "any equal in equals, or any different in not_equals"')
-    fr = repo.func('dataflows.processors.filter_rows:filter_rows')
-    # condition precedence: `if not condition: condition = old_style_conditions(equals, not_equals)`
-    ok = False
-    for n in own_nodes(fr.node):
-        if isinstance(n, ast.If) and u(n.test) in ('not condition', 'condition is None') and len(n.body) == 1 and \
-                isinstance(n.body[0], ast.Assign) and pseudo(n.body[0].targets[0]) == 'condition' and \
-                isinstance(n.body[0].value, ast.Call) and [pseudo(a) for a in n.body[0].value.args] == ['equals', 'not_equals']:
-            ok = True
-    run.check(ok, 'FLT', fr.where, fr.qualname, 'if not condition: condition = old_style_conditions(equals, not_equals)',
+    def old_style(v):
+        nonlocal osc
+        if not isinstance(v, ast.Call):
+            return False
+        # resolve through the un-normalised function (copied nodes carry no parent links): by callee name
+        name = pseudo(v.func)
+        h = repo.func('dataflows.processors.filter_rows:%s' % name, None) if name else None
+        if h is None:
+            return False
+        bb = bind_args(v, h)
+        if [pseudo(bb.get(p_)) for p_ in h.params[:2]] != ['equals', 'not_equals'] or len(h.params) != 2:
+            return False
+        osc = h
+        return True
+    for p in Enumerator(where=fr.qualname).paths(frn.node.body):
+        pv = PathValues(p)
+        truthy = None
+        for t, pol in pv.guards:
+            t, pol = norm_compare(t, pol)
+            if pseudo(t) == 'condition':
+                truthy = pol
+            elif match_expr('condition is None', t) is not None:
+                truthy = not pol
+        v = pv.value('condition')
+        n += 1
+        if truthy is True:
+            ok = ok and (v is None or pseudo(v) == 'condition')
+        elif truthy is False:
+            ok = ok and v is not None and old_style(v)
+        else:
+            # unguarded spellings: `condition = condition or old(...)`, `condition = old(...) if not condition else condition`
+            good = False
+            if isinstance(v, ast.BoolOp) and isinstance(v.op, ast.Or) and len(v.values) == 2 and pseudo(v.values[0]) == 'condition':
+                good = old_style(v.values[1])
+            elif isinstance(v, ast.IfExp) and pseudo(v.test) == 'condition' and pseudo(v.body) == 'condition':
+                good = old_style(v.orelse)
+            ok = ok and good
+    run.check(ok and n > 0 and osc is not None, 'FLT', fr.where, fr.qualname,
+              'condition absent -> old-style condition of (equals, not_equals); present -> kept',
               'the callable condition does not take precedence / equals and not_equals are swapped')
-    # the wrapper gets that condition
-    func = repo.func('dataflows.processors.filter_rows:filter_rows.func')
-    calls = [c for c in own_nodes(func.node) if isinstance(c, ast.Call) and u(c.func) == 'process_resource']
-    run.check(len(calls) == 1 and pseudo(calls[0].args[1]) == 'condition', 'FLT', func.where, func.qualname,
-              'process_resource(r, condition)', 'the row wrapper is not given the condition')
+    if osc is None:
+        return
+    clo = returned_closure(ctx, osc)
+    if clo is None:
+        raise AnalysisError('%s: returned predicate not found' % osc.qualname)
+    rowp = clo.params[0]
+    if isinstance(clo.node, ast.Lambda):
+        value = clo.node.body
+    else:
+        body = ctx.N(clo).node.body
+        body = [st for st in body if not (isinstance(st, ast.Expr) and isinstance(st.value, ast.Constant))]
+        value = body[0].value if len(body) == 1 and isinstance(body[0], ast.Return) else None
+    eq, ne = osc.params
+    pats = ['any((%(r)s[_k] == _v for _o in %(e)s for (_k, _v) in _o.items())) or '
+            'any((%(r)s[_k2] != _v2 for _o2 in %(n)s for (_k2, _v2) in _o2.items()))',
+            'any([%(r)s[_k] == _v for _o in %(e)s for (_k, _v) in _o.items()]) or '
+            'any([%(r)s[_k2] != _v2 for _o2 in %(n)s for (_k2, _v2) in _o2.items()])']
+    ok = value is not None and any(match_expr(pt % dict(r=rowp, e=eq, n=ne), value) is not None for pt in pats)
+    run.check(ok, 'FLT', clo.where, clo.qualname, 'any(row[k] == v ...equals) or any(row[k] != v ...not_equals)',
+              'the equals / not_equals condition is not "any equal in equals, or any different in not_equals"')
 
 
 def dedup_clauses(ctx):
@@ -77,49 +159,68 @@ def dedup_clauses(ctx):
     run.rule('DED', 'DEDUPLICATE: with an empty primary key all rows pass through; otherwise a row is yielded (unchanged) iff its '
                     'key - the tuple of its primary-key values in key order - was not seen before, and the key is recorded on that '
                     'same path before the next row')
-    d = repo.func('dataflows.processors.deduplicate:deduper')
+    step0 = returned_closure(ctx, repo.func('dataflows.processors.deduplicate:deduplicate'))
+    wc = []
+    for c in own_nodes(step0.node):
+        if isinstance(c, ast.Call):
+            h = callee(ctx, c, step0)
+            if h is not None and h.is_generator:
+                wc.append(h)
+    if len(wc) != 1:
+        raise AnalysisError('deduplicate.func: expected one row-wrapper call, found %d' % len(wc))
+    d = ctx.N(wc[0])
     rows = d.params[0]
     facts = Facts(d, include_nested=False)
-    pkv = [n for n, vs in facts.assigns.items() if any('primaryKey' in u(v) for v in vs)]
-    run.check(len(pkv) == 1 and all(rows in names_in(v) and 'schema' in u(v) for v in facts.assigns[pkv[0]]), 'DED', d.where,
-              d.qualname, "pk = rows.res.descriptor['schema'].get('primaryKey', [])", 'the key is not the resource\'s primary key')
-    pk = pkv[0] if pkv else None
+    pk_pats = ["%s.res.descriptor['schema'].get('primaryKey', [])" % rows,
+               "%s.res.descriptor['schema'].get('primaryKey') or []" % rows,
+               "%s.res.descriptor.get('schema', {}).get('primaryKey', [])" % rows]
+    pkv = [n for n, vs in facts.assigns.items() if vs and all(any(match_expr(pt, v) is not None for pt in pk_pats) for v in vs)]
+    run.check(len(pkv) == 1, 'DED', d.where, d.qualname, "pk = rows.res.descriptor['schema'].get('primaryKey', [])",
+              'the key is not the resource\'s primary key')
+    if not pkv:
+        return
+    pk = pkv[0]
     paths = Enumerator(where=d.qualname).paths(d.node.body)
-    empty = [p for p in paths if any(pol and 'len(%s) == 0' % pk in u(t) or (not pol and u(t) in (pk, 'len(%s)' % pk))
-                                     for t, pol in p.guards())]
+
+    def pk_truth(p):
+        for t, pol in p.guards():
+            t, pol = norm_compare(t, pol)
+            if pseudo(t) == pk:
+                return pol
+            if match_expr('%s == []' % pk, t) is not None or match_expr('%s == 0' % ('len(%s)' % pk), t) is not None:
+                return not pol
+        return None
+    empty = [p for p in paths if pk_truth(p) is False]
     run.check(bool(empty) and all([u(y) for y in path_nodes(p, into_loops=True) if isinstance(y, (ast.Yield, ast.YieldFrom))]
                                   == ['(yield from %s)' % rows] for p in empty), 'DED', d.where, d.qualname,
               'empty primary key -> yield from rows', 'without a primary key rows must pass through unchanged')
     loop, var, _ = observers.single_row_loop(ctx, d)
     sigs = rowloop_signature(d, loop, var)
-    keyn = seen = None
+    keyx = seen = None
     for s in sigs:
-        g = [(t, pol) for t, pol in s.guards if isinstance(t, ast.Compare) and isinstance(t.ops[0], (ast.In, ast.NotIn))]
-        if len(g) != 1:
+        g = [norm_compare(t, pol) for t, pol in s.guards]
+        g = [(t, pol) for t, pol in g if isinstance(t, ast.Compare) and isinstance(t.ops[0], ast.In)]
+        if len(g) != 1 or len(s.guards) != 1:
             run.fail('DED', where(repo, loop), d.qualname, s.describe(), 'dedup decision is not a single membership test')
             continue
-        t, pol = g[0]
-        is_in = pol if isinstance(t.ops[0], ast.In) else not pol
-        keyn, seen = pseudo(t.left), pseudo(t.comparators[0])
+        t, is_in = g[0]
+        seen = pseudo(t.comparators[0])
+        keyx = resolve_here(t.left)
         adds = [c for c in s.calls if isinstance(c.func, ast.Attribute) and c.func.attr == 'add'
-                and pseudo(c.func.value) == seen and [pseudo(a) for a in c.args] == [keyn]]
+                and pseudo(c.func.value) == seen and len(c.args) == 1 and u(resolve_here(c.args[0])) == u(keyx)]
         kinds = [k for k, _ in s.yields]
         if is_in:
             run.check(not kinds and not adds and s.term in (CONTINUE, FALL), 'DED', where(repo, loop), d.qualname,
                       'seen key: ' + s.describe(), 'a row whose key was seen before must be dropped')
         else:
-            run.check(kinds == ['identity'] and len(adds) == 1 and not s.stores and s.term == FALL, 'DED', where(repo, loop),
-                      d.qualname, 'new key: ' + s.describe(),
+            run.check(kinds == ['identity'] and len(adds) == 1 and not s.stores and s.term in (FALL, CONTINUE), 'DED',
+                      where(repo, loop), d.qualname, 'new key: ' + s.describe(),
                       'the first row of a key must be yielded unchanged and its key recorded on the same path')
-    if keyn:
-        vals = facts.values_of(keyn)
-        ok = len(vals) == 1 and isinstance(vals[0], ast.Call) and u(vals[0].func) == 'tuple' and \
-            isinstance(vals[0].args[0], ast.GeneratorExp) and pseudo(vals[0].args[0].generators[0].iter) == pk and \
-            not vals[0].args[0].generators[0].ifs and \
-            u(vals[0].args[0].elt) in ('%s[%s]' % (var, vals[0].args[0].generators[0].target.id),
-                                       '%s.get(%s)' % (var, vals[0].args[0].generators[0].target.id))
-        run.check(ok, 'DED', where(repo, loop), d.qualname, 'key = tuple(row[k] for k in pk)',
-                  'the key is not the tuple of all primary-key values of the row')
+    if keyx is not None:
+        pats = ['tuple((%s[_k] for _k in %s))' % (var, pk), 'tuple([%s[_k] for _k in %s])' % (var, pk),
+                'tuple((%s.get(_k) for _k in %s))' % (var, pk), 'tuple([%s.get(_k) for _k in %s])' % (var, pk)]
+        run.check(any(match_expr(pt, keyx) is not None for pt in pats), 'DED', where(repo, loop), d.qualname,
+                  'key = tuple(row[k] for k in pk)', 'the key is not the tuple of all primary-key values of the row')
         created = [n for n in own_nodes(d.node) if isinstance(n, ast.Assign) and pseudo(n.targets[0]) == seen
                    and isinstance(n.value, (ast.Call, ast.Set, ast.Dict, ast.List)) and not names_in(n.value) - {'set', 'dict', 'list'}]
         inloop = [n for n in ast.walk(loop) if isinstance(n, ast.Assign) and pseudo(n.targets[0]) == seen]
@@ -129,12 +230,44 @@ def dedup_clauses(ctx):
                   'resources: a key seen in an earlier resource would suppress the first row of that key in a later one)')
 
 
+class _FilterCanon(ast.NodeTransformer):
+    """list(filter(F, X)) -> [v for v in X if F(v)], with a lambda F beta-reduced (local to the unpivot clause: the list is
+    built eagerly either way and the predicate is applied to each element of X in order)."""
+
+    def visit_Call(self, node):
+        self.generic_visit(node)
+        if isinstance(node.func, ast.Name) and node.func.id == 'list' and len(node.args) == 1 and not node.keywords and \
+                isinstance(node.args[0], ast.Call) and isinstance(node.args[0].func, ast.Name) and node.args[0].func.id == 'filter' \
+                and len(node.args[0].args) == 2:
+            f, xs = node.args[0].args
+            if isinstance(f, ast.Lambda) and len(f.args.args) == 1 and not f.args.defaults:
+                v, test = f.args.args[0].arg, f.body
+            else:
+                v = '_fx'
+                test = ast.Call(func=f, args=[ast.Name(id=v, ctx=ast.Load())], keywords=[])
+            out = ast.ListComp(elt=ast.Name(id=v, ctx=ast.Load()),
+                               generators=[ast.comprehension(target=ast.Name(id=v, ctx=ast.Store()), iter=xs, ifs=[test], is_async=0)])
+            return ast.fix_missing_locations(ast.copy_location(out, node))
+        return node
+
+
 def unpivot_clauses(ctx):
     run, repo = ctx.run, ctx.repo
     run.rule('UNP', 'UNPIVOT: for each input row (outer loop) and each unpivoted field (inner loop, in specification order) exactly '
                     'one fresh row is yielded inside the inner loop, made of a copy of that field\'s key values, every kept field '
                     'of the input row and the cell of that field under the value name; nothing is yielded elsewhere')
-    f = repo.func('dataflows.processors.unpivot:unpivot_rows')
+    step0 = returned_closure(ctx, repo.func('dataflows.processors.unpivot:unpivot'))
+    wc = []
+    for c in own_nodes(step0.node):
+        if isinstance(c, ast.Call):
+            h = callee(ctx, c, step0)
+            if h is not None and h.is_generator:
+                wc.append((c, h))
+    if len(wc) != 1:
+        raise AnalysisError('unpivot.func: expected one row-wrapper call, found %d' % len(wc))
+    f = ctx.N(wc[0][1])
+    if len(f.params) != 4:
+        raise AnalysisError('%s: expected (rows, unpivot fields, kept fields, value field)' % f.qualname)
     rows, unp, keep, extra = f.params
     loops = [n for n in ast.walk(f.node) if isinstance(n, ast.For)]
     outer = [l for l in loops if pseudo(l.iter) == rows]
@@ -148,62 +281,157 @@ def unpivot_clauses(ctx):
     ys = [y for y in ast.walk(f.node) if isinstance(y, (ast.Yield, ast.YieldFrom))]
     run.check(all(y in list(ast.walk(inner[0])) for y in ys), 'UNP', f.where, f.qualname, 'all yields inside the inner loop',
               'rows are emitted outside the per-field loop')
-    facts = Facts(f, include_nested=False)
+    names = dict(row=rowv, fv=fv, keep=keep, extra=extra)
+    cell_pats = ["%(row)s.get(%(fv)s['name'])", "%(row)s[%(fv)s['name']]"]
     for p in Enumerator(where=f.qualname).body_paths(inner[0]):
         y = [n for n in path_nodes(p) if isinstance(n, ast.Yield)]
         good = len(y) == 1 and p.term == FALL and isinstance(y[0].value, ast.Name) and y[0].value.id not in (rowv, fv)
         if good:
             nr = y[0].value.id
-            init = facts.assigns.get(nr, [])
-            good = len(init) == 1 and isinstance(init[0], ast.Call) and ctx.res.external_name(init[0]) == 'copy.deepcopy' \
-                and u(init[0].args[0]) == "%s['keys']" % fv
-            # kept fields
-            kl = [l for l in ast.walk(inner[0]) if isinstance(l, ast.For) and pseudo(l.iter) == keep]
-            good = good and len(kl) == 1 and any(
-                isinstance(s, ast.Assign) and u(s.targets[0]) == '%s[%s]' % (nr, kl[0].target.id) and
-                u(s.value) in ('%s[%s]' % (rowv, kl[0].target.id), '%s.get(%s)' % (rowv, kl[0].target.id)) for s in kl[0].body)
-            # the cell
-            good = good and any(isinstance(n, ast.Assign) and u(n.targets[0]) == "%s[%s['name']]" % (nr, extra) and
-                                u(n.value) in ("%s.get(%s['name'])" % (rowv, fv), "%s[%s['name']]" % (rowv, fv))
-                                for n in path_nodes(p))
+            stmts = [it.node for it in p.items if it.kind in ('stmt', 'loop')]
+            # `ret = new_row; yield ret` (the tail of an inlined helper): follow plain name-to-name copies
+            for _ in range(4):
+                al = [st for st in stmts if isinstance(st, ast.Assign) and pseudo(st.targets[0]) == nr and isinstance(st.value, ast.Name)]
+                if len(al) != 1:
+                    break
+                stmts = [st for st in stmts if st is not al[0]]
+                nr = al[0].value.id
+            names['nr'] = nr
+            init = kept = cell = 0
+            other = []
+            for st in stmts:
+                if not (nr in names_in(st)):
+                    continue
+                if isinstance(st, ast.Expr) and isinstance(st.value, ast.Yield):
+                    continue
+                e = match_stmt('%(nr)s = __V' % names, st)
+                if e is not None and isinstance(e['__V'], ast.Call) and ctx.res.external_name(_orig(ctx, f, e['__V'])) == 'copy.deepcopy' \
+                        and match_expr("%(fv)s['keys']" % names, e['__V'].args[0]) is not None:
+                    init += 1
+                    continue
+                if any(match_stmt(pt % names, st) is not None for pt in (
+                        'for _k in %(keep)s:\n    %(nr)s[_k] = %(row)s[_k]',
+                        '%(nr)s.update({_k: %(row)s[_k] for _k in %(keep)s})',
+                        '%(nr)s.update(((_k, %(row)s[_k]) for _k in %(keep)s))')):
+                    kept += 1
+                    continue
+                if any(match_stmt(("%(nr)s[%(extra)s['name']] = " + cp) % names, st) is not None for cp in cell_pats):
+                    cell += 1
+                    continue
+                other.append(st)
+            order_ok = True
+            good = init == 1 and kept == 1 and cell == 1 and not other
         run.check(good, 'UNP', where(repo, inner[0]), f.qualname, 'new_row = deepcopy(field keys) + kept fields + cell; yield new_row',
                   'an unpivoted row is not exactly keys + kept fields + the cell of this field (cells lost or invented)',
                   path=p.describe())
     # package phase: partition of the schema fields into unpivoted / kept, in specification order
-    func = repo.func('dataflows.processors.unpivot:unpivot.func')
-    facts = Facts(func, include_nested=False)
-    spec_loops = [l for l in ast.walk(func.node) if isinstance(l, ast.For) and pseudo(l.iter) == 'unpivot_fields']
+    func = ctx.N(step0)
+    import copy as _copy
+    fnode = _FilterCanon().visit(_copy.deepcopy(func.node))
+    ast.fix_missing_locations(fnode)
+    spec_loops = [l for l in ast.walk(fnode) if isinstance(l, ast.For) and pseudo(l.iter) == 'unpivot_fields']
     run.check(len(spec_loops) == 1, 'UNP', func.where, func.qualname, 'for u_field in unpivot_fields',
               'unpivot specification is not processed in the order given')
+    mf = None
     if spec_loops:
         sl = spec_loops[0]
-        # complementary filters: the matched list and the remaining list use the same predicate with opposite expectation
-        calls = [c for c in ast.walk(sl) if isinstance(c, ast.Call) and u(c.func) == 'match_fields']
-        pols = sorted(u(c.args[1]) for c in calls if len(c.args) == 2)
-        same = len(set(u(c.args[0]) for c in calls)) == 1 if calls else False
-        run.check(pols == ['False', 'True'] and same, 'UNP', where(repo, sl), func.qualname,
-                  'match_fields(re, True) / match_fields(re, False)',
-                  'the schema is not split into complementary unpivoted / kept parts by one predicate')
-        lam = [l for l in ast.walk(sl) if isinstance(l, ast.Lambda)]
-        ops = sorted(type(l.body.ops[0]).__name__ for l in lam if isinstance(l.body, ast.Compare))
-        run.check(ops == ['Eq', 'NotEq'], 'UNP', where(repo, sl), func.qualname, 'literal name: == / != filters',
-                  'with regex disabled the schema is not split by name equality / inequality')
-    mf = repo.func('dataflows.processors.unpivot:match_fields._filter')
-    r = [n for n in own_nodes(mf.node) if isinstance(n, ast.Return)]
-    run.check(len(r) == 1 and 'fullmatch' in u(r[0].value) and u(r[0].value).endswith('is expected'), 'UNP', mf.where, mf.qualname,
-              '(re.fullmatch(name) is not None) is expected', 'field predicate is not a full match compared with the expectation')
+        spec = sl.target.id if isinstance(sl.target, ast.Name) else None
+        seen_modes = set()
+        for p in Enumerator(where=func.qualname).body_paths(sl):
+            pv = PathValues(p)
+            mode = None
+            for t, pol in pv.guards:
+                t, pol = norm_guard(t, pol)
+                if pseudo(t) == 'regex':
+                    mode = pol
+            if mode is None:
+                run.fail('UNP', where(repo, sl), func.qualname, p.describe(), 'schema split does not depend on the regex switch')
+                continue
+            if mode in seen_modes:
+                continue
+            seen_modes.add(mode)
+            comps = [(n, v) for k, n, v in [e for e in pv.events if e[0] == 'assign'] if isinstance(v, ast.ListComp)
+                     and len(v.generators) == 1 and len(v.generators[0].ifs) == 1 and isinstance(v.generators[0].target, ast.Name)
+                     and pseudo(v.elt) == v.generators[0].target.id]
+            src = set(u(v.generators[0].iter) for n, v in comps)
+            ok = len(comps) == 2 and len(src) == 1 and sum(1 for n, v in comps if n in src) == 1 and comps[1][0] in src
+            if ok:
+                sel = [v for n, v in comps if n not in src][0]
+                rem = [v for n, v in comps if n in src][0]
+                ps, pr_ = sel.generators[0].ifs[0], rem.generators[0].ifs[0]
+                vs, vr = sel.generators[0].target.id, rem.generators[0].target.id
+                if mode:
+                    e1 = match_expr('__M(__R, True)(%s)' % vs, ps)
+                    e2 = match_expr('__M(__R, False)(%s)' % vr, pr_)
+                    ok = e1 is not None and e2 is not None and u(e1['__M']) == u(e2['__M']) and u(e1['__R']) == u(e2['__R']) \
+                        and match_expr("re.compile(%s['name'])" % spec, e1['__R']) is not None
+                    if ok:
+                        mf = repo.func('dataflows.processors.unpivot:%s' % u(e1['__M']), None)
+                        ok = mf is not None
+                    what = ('match_fields(re, True) / match_fields(re, False)',
+                            'the schema is not split into complementary unpivoted / kept parts by one predicate')
+                else:
+                    e1 = match_expr("%s['name'] == __N" % vs, ps)
+                    e2 = match_expr("%s['name'] != __N" % vr, pr_)
+                    ok = e1 is not None and e2 is not None and u(e1['__N']) == u(e2['__N']) and \
+                        match_expr("%s['name']" % spec, e1['__N']) is not None
+                    what = ('literal name: == / != filters',
+                            'with regex disabled the schema is not split by name equality / inequality')
+            else:
+                what = ('selected = [f for f in fields if P(f)]; fields = [f for f in fields if not P(f)]',
+                        'the schema is not split into complementary unpivoted / kept parts by one predicate')
+            run.check(ok, 'UNP', where(repo, sl), func.qualname, what[0], what[1])
+        run.check(seen_modes == {True, False}, 'UNP', where(repo, sl), func.qualname, 'both regex modes',
+                  'the regex switch no longer selects between pattern and literal field names')
+    if mf is not None:
+        clo = returned_closure(ctx, mf)
+        value = None
+        if clo is not None:
+            if isinstance(clo.node, ast.Lambda):
+                value = clo.node.body
+            else:
+                body = [st for st in ctx.N(clo).node.body if not (isinstance(st, ast.Expr) and isinstance(st.value, ast.Constant))]
+                value = body[0].value if len(body) == 1 and isinstance(body[0], ast.Return) else None
+        ok = False
+        if value is not None:
+            d = dict(r=mf.params[0], e=mf.params[1], f=clo.params[0])
+            ok = any(match_expr(pt % d, value) is not None for pt in (
+                "(%(r)s.fullmatch(%(f)s['name']) is not None) is %(e)s", "(%(r)s.fullmatch(%(f)s['name']) is not None) == %(e)s",
+                "bool(%(r)s.fullmatch(%(f)s['name'])) is %(e)s", "bool(%(r)s.fullmatch(%(f)s['name'])) == %(e)s"))
+        run.check(ok, 'UNP', mf.where, mf.qualname, '(re.fullmatch(name) is not None) is expected',
+                  'field predicate is not a full match compared with the expectation')
     # kept names are taken from the remaining fields *before* the new key / value fields are appended
-    preds_order = []
-    for st in ast.walk(func.node):
-        if isinstance(st, ast.Assign) and u(st.targets[0]) == "config['fields_to_keep']":
-            preds_order.append(('keep', st.lineno))
-        if isinstance(st, ast.Call) and isinstance(st.func, ast.Attribute) and st.func.attr in ('extend', 'append') \
-                and pseudo(st.func.value) == 'fields' and st.args and (names_in(st.args[0]) & {'extra_keys', 'extra_value'}):
-            preds_order.append((sorted(names_in(st.args[0]) & {'extra_keys', 'extra_value'})[0], st.lineno))
-    names = [n for n, _ in sorted(preds_order, key=lambda x: x[1])]
-    run.check(names == ['keep', 'extra_keys', 'extra_value'], 'UNP', func.where, func.qualname,
+    order = {}
+    for i, st in enumerate(ast.walk(fnode)):
+        pass
+    seq = []
+
+    def visit(n):
+        if isinstance(n, ast.Assign) and isinstance(n.value, ast.ListComp):
+            e = match_expr("[_f['name'] for _f in _x]", n.value)
+            if e is not None and isinstance(n.targets[0], ast.Subscript):
+                seq.append(('keep', e['_x']))
+        if isinstance(n, ast.Call) and isinstance(n.func, ast.Attribute) and n.func.attr in ('extend', 'append') and n.args:
+            hit = sorted(names_in(n.args[0]) & {'extra_keys', 'extra_value'})
+            if hit:
+                seq.append((hit[0] + ':' + n.func.attr, pseudo(n.func.value)))
+        if isinstance(n, ast.AugAssign) and isinstance(n.op, ast.Add):
+            hit = sorted(names_in(n.value) & {'extra_keys', 'extra_value'})
+            for h in hit:
+                seq.append((h + (':extend' if h == 'extra_keys' or not isinstance(n.value, ast.List) else ':append'), pseudo(n.target)))
+        for c in ast.iter_child_nodes(n):
+            visit(c)
+    visit(fnode)
+    names_ = [k for k, _ in seq]
+    lists = set(v for _, v in seq)
+    run.check(names_ == ['keep', 'extra_keys:extend', 'extra_value:append'] and len(lists) == 1, 'UNP', func.where, func.qualname,
               'fields_to_keep computed, then extra_keys, then extra_value appended',
-              'kept-field list / appended key and value fields are not in the documented order: ' + str(names))
+              'kept-field list / appended key and value fields are not in the documented order: ' + str(names_))
+
+
+def _orig(ctx, fi, call):
+    """external_name() needs a node that belongs to an indexed function; normalised copies are indexed by cli.N"""
+    return call
 
 
 def check(ctx):
